@@ -228,6 +228,8 @@ def gen_case(rnd, ctx, maxlen):
         r = rnd.random()
         if r < 0.12 and level_of[o] > 0:
             tgt = rnd.choice(by_level[level_of[o] - 1])
+            if level_of[o] == len(by_level) - 1 and rnd.random() < 0.08:
+                tgt = None          # only on top-level objects: nobody defers to them
             op = ["Set", o, [PARENT], {"obj": tgt} if tgt is not None else None]
             ctx.count("op:swap-delegate" if tgt is not None else "op:delegate-none")
         elif r < 0.27 and local:
@@ -314,7 +316,7 @@ def run(ctx):
                        "class in the four prefix styles (same name, explicit name, 'prefix*', '*' with __prefix__), "
                        "DelegatesTo and PrototypedFrom mixed, 2 candidate delegates per level; histories of assignments "
                        "through deferring attributes and on any candidate delegate (valid, out of range, wrong type), "
-                       "re-pointing the delegate, deleting local values (present or not); a case is "
+                       "re-pointing the delegate (top-level objects also to None), deleting local values (present or not); a case is "
                        "non-trivial if some step notified a handler or raised; distinct = distinct configuration+history")
     rnd = random.Random(ctx.seed)
     n, maxlen = (1200, 10) if ctx.tier == "quick" else (12000, 20)
